@@ -319,4 +319,41 @@ def rule_buffer(ctx):
     ctx.ob(R, "push", okm and oke and okr, "push(buf): n = min(capacity(), buf.len()); end += n; returns n" if okm and oke and okr else "push deviates (min %s, end %s, ret %s)" % (okm, oke, okr), f.loc())
 
 
-RULES = [("C13.1", rule_constants), ("C13.2", rule_reader), ("C13.3", rule_flush_before_reuse), ("C13.4", rule_failures), ("C13.5", rule_buffer)]
+def rule_write_accounting(ctx):
+    R = "C13.6"
+    ctx.rule(R, "write accounting (AsyncWrite contract): once poll_write has accepted bytes (payload.push) it returns Ready(Ok(n)) with n the number accepted - no Pending or error return is reachable after the push, otherwise the caller retries bytes that are already buffered and the peer receives them twice")
+    l = [f for f in ctx.F.fns if f.qname.endswith("AsyncWrite>::poll_write") and "noise::stream::Stream" in f.qname and not f.in_testonly()]
+    ctx.floor(R, "poll_write bodies", len(l), 1)
+    for f in l:
+        T = ctx.T(f)
+        cfg = ctx.cfg(f)
+        pushes = [c for c in T.calls() if c["q"] == BUF + "::push"]
+        ctx.floor(R, "payload.push sites in poll_write", len(pushes), 1)
+        RL = Q.ret_locals(f)
+        bad = []
+        good = []
+        for bi, b in enumerate(f.blocks):
+            for st in b["s"]:
+                if st["k"] == "assign" and not st["p"].get("pr") and st["p"]["l"] in RL and st["r"]["k"] == "agg":
+                    v = T.rvalue(st["r"])
+                    if v[0] == "agg" and v[2] == "Pending":
+                        bad.append((bi, "Pending"))
+                    elif v[0] == "agg" and v[2] == "Ready":
+                        inner = v[3][0][1] if v[3] else None
+                        if inner is not None and inner[0] == "agg" and inner[2] == "Err":
+                            bad.append((bi, "Err"))
+                        else:
+                            good.append((bi, inner))
+            t = b["t"]
+            if t["k"] == "call" and not t["dest"].get("pr") and t["dest"]["l"] in RL and "decl" in t["f"] and f.callee(t)[0].qname == "std::ops::FromResidual::from_residual":
+                bad.append((bi, "error propagation"))
+        for c in pushes:
+            after = cfg.reach_from([c["t"]["t"]]) if "t" in c["t"] else set()
+            hit = [(bi, k) for bi, k in bad if bi in after]
+            ctx.ob(R, "no Pending/Err after bytes were accepted", not hit, "every return reachable after payload.push is Ready(Ok(..))" if not hit else
+                   "poll_write can return %s after payload.push accepted the caller's bytes: the caller must retry the same bytes, which are then encrypted and delivered twice" % sorted(set(k for _, k in hit)), f.loc(c["t"].get("ln")))
+        okn = bool(good) and any(inner is not None and any(x[0] == "call" and x[1] == BUF + "::push" for x in subterms(inner)) for _, inner in good)
+        ctx.ob(R, "reported count is the accepted count", okn, "poll_write returns Ready(Ok(n)) with n = payload.push(buf)" if okn else "the byte count reported by poll_write is not the result of payload.push", f.loc())
+
+
+RULES = [("C13.1", rule_constants), ("C13.2", rule_reader), ("C13.3", rule_flush_before_reuse), ("C13.4", rule_failures), ("C13.5", rule_buffer), ("C13.6", rule_write_accounting)]
